@@ -95,12 +95,12 @@ Section History.
 
   (** C10 (second half): a region obtained by [merge_regions] from any well-formed regions behaves
       like a default region (for regions with [MergeFresh], i.e. all but the codecs). *)
-  Theorem merge_fresh_history `{!MergeFresh R} l h s log tr : Forall inv l ->
+  Theorem merge_fresh_history `{!MergeFresh R} l h s log tr : Forall inv l -> mergeable l ->
     run h (merge R l) [] [] = Ok (s, log, tr) ->
     exists s', run h (dflt R) [] [] = Ok (s', log, tr) /\ sim s s'.
   Proof.
-    intros Hl Hr.
-    destruct (@run_sim h (merge R l) (dflt R) [] [] s log tr (merge_inv Hl) inv_dflt (@merge_fresh R _ _ l Hl) Hr)
+    intros Hl Hm Hr.
+    destruct (@run_sim h (merge R l) (dflt R) [] [] s log tr (merge_inv Hl Hm) inv_dflt (@merge_fresh R _ _ l Hl) Hr)
       as (t' & Hq & Hs & _). eauto.
   Qed.
 End History.
